@@ -77,10 +77,10 @@ class CLikeCompilerArgs(arglist.CompilerArgs):
         # needed by static libraries that are provided by object files or
         # shared libraries.
         self.flush_pre_post()
-        if copy:
-            new = self.copy()
-        else:
-            new = self
+        # Work on a plain list: converting to native form is a read, it must
+        # not write the group markers into (or pop default include
+        # directories from) the argument list itself.
+        new = list(self._container)
         # This covers all ld.bfd, ld.gold, ld.gold, and xild on Linux, which
         # all act like (or are) gnu ld
         # TODO: this could probably be added to the DynamicLinker instead
@@ -119,7 +119,7 @@ class CLikeCompilerArgs(arglist.CompilerArgs):
                     bad_idx_list += [i]
             for i in reversed(bad_idx_list):
                 new.pop(i)
-        return self.compiler.unix_args_to_native(new._container)
+        return self.compiler.unix_args_to_native(new)
 
     @staticmethod
     @functools.lru_cache(maxsize=None)
